@@ -32,3 +32,85 @@ PROFILES = [
 ]
 
 FILES = {F: {"imports": ["FlVerif.Op.PyExtWave5X"]}}
+
+# ---- Engine.configure (C14), translated with `raise_state`: the record at a raise shows that nothing was assigned
+DOC_CFG = """
+* `Engine.configure` (`engine.py`): the engine is `Op.FllIO.Engine` (parameter `e`), the six arguments are the record
+  `Op.Engine.ConfigArgs` (parameter `a`: each `None`, a name or an object - `Op.Engine.OpArg`), the factories are the
+  parameter `F`.  The rule blocks / output variables the loops have assigned to are collected in the locals `blocks` /
+  `outputs` (`loop_writeback`): at a raise they are empty.
+* `FllImporter.component` (`importer.py`): the class is seen through the four `issubclass` tests (`Py.W5.ClassOf`); the
+  four methods it dispatches to are their *generated definitions*.
+* `Variable.term` (`variable.py`): the look-up of `Engine.input_variable` on the terms (generic in the type of a term).
+"""
+__doc__ += DOC_CFG
+FC = "CodeWave5XCfg"
+ENG, BLK, OUT = "Op.FllIO.Engine", "Op.FllIO.Block", "Op.FllIO.OutVar"
+DEFUZZ, ACTIV = "Op.FllIO.Defuzz", "Op.FllIO.Activ"
+ARG_N, ARG_D, ARG_A = "Op.Engine.OpArg String", f"Op.Engine.OpArg {DEFUZZ}", f"Op.Engine.OpArg {ACTIV}"
+
+
+def assign(obj, attr, ty):
+    return (f"{obj}.{attr} = _0", f"{{{{ σ with {obj} := {{{{ σ.{obj} with {attr} := ({{0}}).value }}}} }}}}", True, [ty])
+
+
+PROFILES += [
+    {
+        "name": "Engine_configure", "module": "fuzzylite.engine", "object": "Engine.configure", "file": FC, "raise_state": True,
+        "params": [("F", "Op.Engine.Factories"), ("e", ENG), ("a", "Op.Engine.ConfigArgs")],
+        "init": {"conjunction": "a.conjunction", "disjunction": "a.disjunction", "implication": "a.implication",
+                 "aggregation": "a.aggregation", "defuzzifier": "a.defuzzifier", "activation": "a.activation"},
+        "alias_locals": {"factory": "settings.factory_manager"},
+        "locals": {"conjunction": ARG_N, "disjunction": ARG_N, "implication": ARG_N, "aggregation": ARG_N,
+                   "defuzzifier": ARG_D, "activation": ARG_A, "block": BLK, "variable": OUT,
+                   "blocks": f"List {BLK}", "outputs": f"List {OUT}"},
+        "loop_writeback": {"block": "{ σ with blocks := σ.blocks ++ [σ.block] }",
+                           "variable_": "{ σ with outputs := σ.outputs ++ [σ.variable_] }"},
+        "externals": [
+            ("isinstance(_0, str)", "{0}.isName", "Bool", True, [ARG_N]),
+            ("isinstance(_0, str)", "{0}.isName", "Bool", True, [ARG_D]),
+            ("isinstance(_0, str)", "{0}.isName", "Bool", True, [ARG_A]),
+            ("factory.tnorm.construct(_0)", "(Op.Engine.OpArg.construct F.tnorm {0})", ARG_N, False, [ARG_N]),
+            ("factory.snorm.construct(_0)", "(Op.Engine.OpArg.construct F.snorm {0})", ARG_N, False, [ARG_N]),
+            ("factory.defuzzifier.construct(_0)", "(Op.Engine.OpArg.construct F.defuzzifier {0})", ARG_D, False, [ARG_D]),
+            ("factory.activation.construct(_0)", "(Op.Engine.OpArg.construct F.activation {0})", ARG_A, False, [ARG_A]),
+            ("self.rule_blocks", "e.blocks", f"List {BLK}", True),
+            ("self.output_variables", "e.outputs", f"List {OUT}", True),
+        ],
+        "stmt_externals": [
+            assign("block", "conjunction", ARG_N), assign("block", "disjunction", ARG_N), assign("block", "implication", ARG_N),
+            assign("block", "activation", ARG_A), assign("variable_", "aggregation", ARG_N), assign("variable_", "defuzzifier", ARG_D),
+        ],
+    },
+    {
+        "name": "FllImporter_component", "module": "fuzzylite.importer", "object": "FllImporter.component", "file": FC,
+        "params": [("cls", "Py.W5.ClassOf"), ("fll", "String")], "locals": {}, "ret": "Py.W5.Component",
+        "externals": [
+            ("issubclass(cls, Activation)", "cls.isActivation", "Bool", True),
+            ("issubclass(cls, Defuzzifier)", "cls.isDefuzzifier", "Bool", True),
+            ("issubclass(cls, SNorm)", "cls.isSNorm", "Bool", True),
+            ("issubclass(cls, TNorm)", "cls.isTNorm", "Bool", True),
+        ] + [(f"self.{m}(_0)",
+              f"(FllImporter_{m}.run {{0}} {{{{}}}} >>= fun r => Py.deref r.ret >>= fun v => .ok (Py.W5.Component.{m} v))",
+              "Py.W5.Component", False, ["String"]) for m in ("activation", "defuzzifier", "snorm", "tnorm")],
+    },
+]
+FILES[FC] = {"imports": ["FlVerif.Op.PyExtWave5XCfg", "FlVerif.Gen.CodeFllImport"]}
+
+# ---- Variable.term (C02): the look-up by name or index of `Engine.input_variable`, on the terms of a variable
+FV = "CodeWave5XVar"
+KEY = "Op.Engine.Key"
+PROFILES += [
+    {
+        "name": "Variable_term", "module": "fuzzylite.variable", "object": "Variable.term", "file": FV, "type_params": ["V"],
+        "params": [("nameOf", "V → String"), ("terms", "List V"), ("name_or_index", KEY)],
+        "locals": {"term": "V"}, "ret": "V",
+        "externals": [
+            ("self.terms", "terms", "List V", True),
+            ("isinstance(name_or_index, int)", "name_or_index.isInt", "Bool", True),
+            ("_0[name_or_index]", "(Py.EIO.atKey {0} name_or_index)", "V", False, ["List V"]),
+            ("term_.name == name_or_index", "(name_or_index.isName (nameOf σ.term_))", "Bool", True),
+        ],
+    },
+]
+FILES[FV] = {"imports": ["FlVerif.Op.PyExtEngineIO"]}
